@@ -118,7 +118,8 @@ def cases(tier, seed):
         for k in (range(3, 6) if tier == "thorough" else ()):
             for rl in range(3):
                 cs.append(Case(f"se3/Log_SE3_H{tag}/dir{k}/r{rl}", se3, dict(which="Log_SE3_H", mirror=m, k=k, rl=rl), timeout=T, hard=T * 8))
-    cs.append(Case("at_zero", at_zero, {}, timeout=T))
+    # (no float cross-check: central differences of the closed forms (1 - cos a) / a^2 at a ~ 1e-6 lose all significant digits)
+    cs.append(Case("at_zero", at_zero, {}, timeout=T, crosscheck=False))
     cs.append(Case("Log_SO3_A", log_A, {}, timeout=T))
     cs.append(Case("quat", quat, {}, timeout=T))
     return cs
